@@ -24,7 +24,7 @@ MANIFEST = dict(
 NOT_VERDICTS = ('tainted', 'unexplained')
 
 OPS = {'new', 'create_ent', 'add_ent', 'add_ents', 'remove_ent', 'ent_remove', 'set_class', 'set_name', 'update',
-       'del_name', 'del_class', 'pop_name', 'pop_class', 'clear', 'copy', 'make_unique', 'iter'}
+       'del_name', 'del_class', 'pop_name', 'pop_class', 'clear', 'copy', 'make_unique', 'iter', 'scan', 'setdefault_name'}
 
 
 def sig_of(m: dict) -> dict:
